@@ -110,7 +110,13 @@ pub fn run(tier: Tier, replay_file: Option<&str>) -> i32 {
     let psets = c14::policy_sets(tier, &schema);
     // environments: the W stores (entities present/absent, dangling references) x W requests
     let stores: Vec<Store> = w_stores(Tier::Quick).into_iter().step_by(tier.pick(13, 2)).collect();
-    let reqs: Vec<Req> = w_requests();
+    let mut reqs: Vec<Req> = w_requests();
+    // + a resource that no store holds (after seed C15-b1)
+    {
+        let mut c = std::collections::BTreeMap::new();
+        c.insert("n".to_string(), Val::Long(1));
+        reqs.push(Req { principal: crate::world::ua(), action: crate::world::view(), resource: Uid::new("Doc", "zz"), context: c });
+    }
     let mut envs = Vec::new();
     for s in &stores {
         let Ok(ce) = c_entities_schema(s, &schema) else {
